@@ -2,6 +2,7 @@
 //! Prints one JSON object; exit status 0 = no failing input found, 1 = failing inputs found, 2 = the harness could not run.
 mod aspsem;
 mod dom;
+mod external;
 mod hteval;
 mod simp;
 mod tff;
@@ -82,6 +83,24 @@ fn run_gamma(deep: bool) -> (String, Vec<trans::Failure>) {
     (format!("\"formulas\": {}, \"input_output_pairs\": {}, \"pairs_skipped_not_exactly_evaluable\": {}, \"pair_interpretation_evaluations\": {}", st.formulas, st.compared, st.skipped_inexact, st.evaluations), fails)
 }
 
+fn run_external(deep: bool) -> (String, Vec<trans::Failure>) {
+    let cases = external::cases(deep);
+    let fails = Mutex::new(Vec::new());
+    let totals = Mutex::new((0usize, 0usize, 0usize, 0usize));
+    par_for(&cases, |(c, flags)| {
+        let mut st = verify::VStats { pairs: 0, runs: 0, problems: 0, evaluations: 0 };
+        let mut fl = Vec::new();
+        external::check_case(c, flags, &mut st, &mut fl);
+        let mut t = totals.lock().unwrap();
+        t.0 += st.pairs; t.1 += st.runs; t.2 += st.problems; t.3 += st.evaluations;
+        fails.lock().unwrap().extend(fl);
+    });
+    let t = totals.lock().unwrap();
+    let mut fails = fails.into_inner().unwrap();
+    fails.sort_by(|a, b| (a.property, &a.input).cmp(&(b.property, &b.input)));
+    (format!("\"tasks\": {}, \"anthem_verify_runs\": {}, \"problems_read\": {}, \"interpretations_enumerated\": {}", t.0, t.1, t.2, t.3), fails)
+}
+
 fn run_trans(deep: bool) -> (String, Vec<trans::Failure>) {
     let corpus = trans::corpus(deep);
     let n_interp = if deep { 160 } else { 40 };
@@ -121,6 +140,7 @@ fn main() {
         "simp" => run_simp(deep),
         "strong" => run_strong(deep),
         "gamma" => run_gamma(deep),
+        "external" => run_external(deep),
         _ => { eprintln!("usage: bounded trans [--deep]"); std::process::exit(2); }
     };
     let harness_broken = fails.iter().any(|f| f.property == "harness");
